@@ -4,16 +4,17 @@
    that breaks one of them stops the build. *)
 From Coq Require Import List String ZArith Bool Arith Lia Ring.
 Import ListNotations.
-Require Import C15.Model C15.Proofs C15.Bodies C15.gen.Dispatch.
+Require Import C15.Model C15.Proofs C15.Bodies C15.Order C15.gen.Dispatch.
 Open Scope string_scope.
 
-Lemma W_wf : world_wf W = true.               Proof. vm_compute. reflexivity. Qed.
-Lemma W_tf_ok : tf_ok (w_tf W) = true.        Proof. vm_compute. reflexivity. Qed.
-Lemma W_total_ok : total_ok W = true.         Proof. vm_compute. reflexivity. Qed.
-Lemma W_first_cells_ok : first_cells_ok W = true.   Proof. vm_compute. reflexivity. Qed.
-Lemma W_second_cells_ok : second_cells_ok W = true. Proof. vm_compute. reflexivity. Qed.
-Lemma W_binop_cells_ok : binop_cells_ok W = true.   Proof. vm_compute. reflexivity. Qed.
-Lemma W_required_ok : required_ok W = true.         Proof. vm_compute. reflexivity. Qed.
+Lemma W_wf : world_wf W = true.               Proof. vm_cast_no_check (eq_refl true). Qed.
+Lemma W_tf_ok : tf_ok (w_tf W) = true.        Proof. vm_cast_no_check (eq_refl true). Qed.
+Lemma W_total_ok : total_ok W = true.         Proof. vm_cast_no_check (eq_refl true). Qed.
+Lemma W_first_cells_ok : first_cells_ok W = true.   Proof. vm_cast_no_check (eq_refl true). Qed.
+Lemma W_second_cells_ok : second_cells_ok W = true. Proof. vm_cast_no_check (eq_refl true). Qed.
+Lemma W_binop_cells_ok : binop_cells_ok W = true.   Proof. vm_cast_no_check (eq_refl true). Qed.
+Lemma W_required_ok : required_ok W = true.         Proof. vm_cast_no_check (eq_refl true). Qed.
+Lemma W_po_ok : po_ok W = true.                     Proof. vm_cast_no_check (eq_refl true). Qed.
 Lemma W_opclasses_nonempty : w_opclasses W <> []. Proof. vm_compute. discriminate. Qed.
 
 (* ---- contracts of the translated bodies ---- *)
@@ -46,7 +47,7 @@ Qed.
 End Bodies.
 
 Lemma W_signatures_ok : forallb (fun md => signature_ok (snd md)) gen_bodies = true.
-Proof. vm_compute. reflexivity. Qed.
+Proof. vm_cast_no_check (eq_refl true). Qed.
 
 Lemma W_bodies_ok : Forall body_ok_prop gen_bodies.
 Proof.
